@@ -9,6 +9,7 @@ import (
 	"testing"
 
 	"verif/internal/h"
+	"verif/internal/obs"
 )
 
 // TestReplay re-runs one saved failing case (VERIF_REPLAY=<file>).
@@ -20,6 +21,16 @@ func TestReplay(t *testing.T) {
 	prop, msg, err := h.RunReplayFile(path)
 	if err != nil {
 		t.Fatalf("REPLAY-ERROR %v", err)
+	}
+	if msg == "" {
+		// second attempt after the interleaved battery (state-dependent failures)
+		for range c08Battery() {
+			obs.Perturb() // one more unrelated program, then the case again
+			if _, m, _ := h.RunReplayFile(path); m != "" {
+				msg = "(only after evaluating unrelated battery programs first) " + m
+				break
+			}
+		}
 	}
 	if msg != "" {
 		fmt.Printf("REPRODUCED property=%s replay=%s : %s\n", prop, path, msg)
